@@ -106,6 +106,8 @@ func loadProg(repo, tags string, overlay map[string][]byte) (*Prog, []string) {
 		}
 	}
 	sort.Strings(problems)
+	theProg = p
+	p.applyRenames()
 	p.LoadS = time.Since(t0).Seconds()
 	return p, problems
 }
